@@ -4,21 +4,23 @@
 From PG Require Import Lib.Strs.
 
 (* ================================================================================================
-   Part 1: _show_diffs
+   Part 1: _show_diffs   (as coded since the fix of F09b / F09f)
 
      has_diff = False
      for new_file in Path(new_dir).rglob("*.py"):
          old_file = Path(old_dir) / new_file.relative_to(new_dir)
-         if old_file.exists():
-             old_lines = old_file.read_text().splitlines()
-             new_lines = new_file.read_text().splitlines()
-             diff = list(difflib.unified_diff(old_lines, new_lines, …))
-             if diff: has_diff = True; print(…)
+         if not old_file.exists():
+             has_diff = True; print("Only in newly generated output: …")
+         elif old_file.read_bytes() != new_file.read_bytes():
+             has_diff = True; print(unified diff, or "Files differ only in line endings: …")
+     for old_file in Path(old_dir).rglob("*.py"):
+         if not (Path(new_dir) / old_file.relative_to(old_dir)).exists():
+             has_diff = True; print("Only in existing output: …")
      return has_diff
 
-   A directory is the list of its regular files (path relative to the directory, as components) with
-   their text.  [unified_diff a b] is empty iff a = b (difflib yields no group when every opcode is
-   'equal').  read_text() opens in text mode: universal newlines translate "\r\n" and "\r" to "\n". *)
+   A directory is the list of its regular files (path relative to the directory, as components) with their
+   content (code points of the UTF-8 text = the bytes).  What is printed is not modelled, only the decision
+   and which files are named. *)
 Definition path := list str.
 Definition tree := list (path * str).
 
@@ -38,73 +40,33 @@ Definition is_py (p : path) : bool :=
   | name :: _ => suffixb dot_py name
   end.
 
-Fixpoint universal_nl (s : str) : str :=
-  match s with
-  | [] => []
-  | c :: r =>
-      if c =? 13 then
-        10 :: match r with
-              | d :: r' => if d =? 10 then universal_nl r' else universal_nl r
-              | [] => []
-              end
-      else c :: universal_nl r
-  end.
-
-(* str.splitlines() boundaries: \n \r \v \f FS GS RS NEL LS PS (and "\r\n" as one) *)
-Definition is_linebreak (c : N) : bool :=
-  (c =? 10) || (c =? 11) || (c =? 12) || (c =? 13) || (c =? 28) || (c =? 29) || (c =? 30)
-  || (c =? 133) || (c =? 8232) || (c =? 8233).
-
-Fixpoint splitlines_aux (s : str) (cur : str) : list str :=
-  match s with
-  | [] => match cur with [] => [] | _ => [rev cur] end
-  | c :: r =>
-      if is_linebreak c then
-        rev cur :: match r with
-                   | d :: r' => if (c =? 13) && (d =? 10) then splitlines_aux r' [] else splitlines_aux r []
-                   | [] => []
-                   end
-      else splitlines_aux r (c :: cur)
-  end.
-Definition splitlines (s : str) : list str := splitlines_aux s [].
-
-Definition read_lines (s : str) : list str := splitlines (universal_nl s).
-Definition lines_eqb (a b : list str) : bool := list_eqb str_eqb a b.
-
-(* generic in the content type so that the mode model below can reuse it with abstract contents *)
-Definition file_differs {C} (norm_eqb : C -> C -> bool) (old : list (path * C)) (pc : path * C) : bool :=
-  is_py (fst pc) &&
-  match tlookup (fst pc) old with
-  | Some c' => negb (norm_eqb c' (snd pc))
-  | None => false
-  end.
-
-Definition show_diffs_g {C} (norm_eqb : C -> C -> bool) (old new : list (path * C)) : bool :=
-  existsb (file_differs norm_eqb old) new.
-
-Definition text_same (a b : str) : bool := lines_eqb (read_lines a) (read_lines b).
-Definition show_diffs (old new : tree) : bool := show_diffs_g text_same old new.
-
-(* the files the property talks about *)
-Definition py_files {C} (t : list (path * C)) : list (path * C) := filter (fun pc => is_py (fst pc)) t.
 Definition paths_of {C} (t : list (path * C)) : list path := map fst t.
 Definition mem_path (p : path) (l : list path) : bool := existsb (path_eqb p) l.
 
-(* the relative paths _show_diffs reports (the "--- old_file" headers it prints) *)
-Definition differing_g {C} (norm_eqb : C -> C -> bool) (old new : list (path * C)) : list path :=
-  map fst (filter (file_differs norm_eqb old) new).
+(* generic in the content type so that the mode model below can reuse it with abstract contents *)
+Definition file_differs {C} (same : C -> C -> bool) (old : list (path * C)) (pc : path * C) : bool :=
+  is_py (fst pc) &&
+  match tlookup (fst pc) old with
+  | Some c' => negb (same c' (snd pc))
+  | None => true                       (* only in the newly generated output *)
+  end.
+(* *.py files only in the existing output *)
+Definition old_only {C} (old new : list (path * C)) : list (path * C) :=
+  filter (fun pc => is_py (fst pc) && negb (mem_path (fst pc) (paths_of new))) old.
 
-(* ---- guards (executable), one per finding class of the diff decision ---- *)
-(* F09b: the two trees have the same set of *.py paths *)
-Definition guard_F09b {C} (old new : list (path * C)) : bool :=
-  forallb (fun p => mem_path p (paths_of (py_files old))) (paths_of (py_files new)) &&
-  forallb (fun p => mem_path p (paths_of (py_files new))) (paths_of (py_files old)).
-(* F09f: a common *.py file never differs in line terminators only *)
-Definition guard_F09f (old new : tree) : bool :=
-  forallb (fun pc => match tlookup (fst pc) old with
-                     | Some c' => negb (is_py (fst pc)) || str_eqb c' (snd pc) || negb (text_same c' (snd pc))
-                     | None => true
-                     end) new.
+(* the relative paths _show_diffs names *)
+Definition differing_g {C} (same : C -> C -> bool) (old new : list (path * C)) : list path :=
+  map fst (filter (file_differs same old) new) ++ map fst (old_only old new).
+
+Definition show_diffs_g {C} (same : C -> C -> bool) (old new : list (path * C)) : bool :=
+  match differing_g same old new with [] => false | _ => true end.
+
+Definition show_diffs (old new : tree) : bool := show_diffs_g str_eqb old new.
+
+(* the files the property talks about *)
+Definition py_files {C} (t : list (path * C)) : list (path * C) := filter (fun pc => is_py (fst pc)) t.
+
+(* ---- guard (executable) for the remaining finding class of the diff decision ---- *)
 (* F09g: the non-*.py files of the two trees coincide *)
 Definition sub_nonpy (a b : tree) : bool :=
   forallb (fun pc => is_py (fst pc) ||
